@@ -60,14 +60,14 @@ CLAIMS = {
               'C05_new_handle_never_wrong_bytes, C05_any_spill. TIE: the monitor runs on the intercepted trace of each of 12 (thorough 28) operation '
               'variants; the process is really killed (os._exit) before EVERY gated call and after the last one (229 / 460 kills), the folder is then '
               'read raw and through a new handle; the Gallina programs must generate exactly the intercepted traces of 15 scenarios. PARTIAL: '
-              'direct-to-pack (no_holes), repack and import are certified per observed trace (all crash points of that trace) by the verified '
+              'direct-to-pack (no_holes) and import are certified per observed trace (all crash points of that trace) by the verified '
               'monitor and by the exhaustive kill sweep, not by a program-level theorem; multi-pack pack_all_loose is the iteration of the one-pack program.'),
         design='4/C05'),
     'C06': dict(
         technique='Coq verified power-loss monitor + program-level theorem (add loose) + power-loss image at every kill point',
         text=('PROOF (Coq, closed): C06_monitor_sound with the power_loss projection (every file falls back to its last fsync), '
               'C06_add_loose_power_safe, C06_pack_power_safe (do_fsync=true: rows committed only over flushed+fsynced bytes, loose unlinked only after that '
-              'commit), C06_clean_power_safe - ALL inputs and crash points; default fsync settings from the AST. TIE: fsync hook snapshots file content; '
+              'commit), C06_clean_power_safe, C06_repack_power_safe - ALL inputs and crash points; default fsync settings from the AST. TIE: fsync hook snapshots file content; '
               'after each of ~220 kills (every gated call + after completion) the power-loss image is built and examined raw and through a new '
               'handle; the power-loss monitor must accept every implementation trace with default settings (it rejects the do_fsync=False '
               'variants, as it should). PARTIAL as C05; kernel/disk behaviour is the fault model of the property text, not verified.'),
@@ -115,11 +115,13 @@ CLAIMS = {
     'C11': dict(
         technique='Coq lemmas on DELETE / repack statements / unlink + delete-heavy histories with raw pack comparison',
         text=('PROOF (Coq, closed): C11_delete_program (delete_objects as a program, all worlds and key lists: requested keys gone from every view, '
-              'everything else reads as before, invariant kept), C11_delete_exactly_requested, C11_repack_keeps_keys_update/_repoint, C11_unlink_removes_only_that_key/_that_key. '
+              'everything else reads as before, invariant kept), C11_repack_reclaims (repack_pack as a program: afterwards the pack file is exactly '
+              'the concatenation of the live objects\' stored bytes, -1 is gone, other packs and loose untouched, same keys), '
+              'C11_repack_removes_empty_pack, C11_delete_exactly_requested, C11_repack_keeps_keys_update/_repoint, C11_unlink_removes_only_that_key/_that_key. '
               'TIE: 150 delete-heavy histories (loose, packed, both, stray duplicates), returned list vs set, packs byte-identical after delete, after '
               'repack every pack = concatenation of live stored bytes and no empty/temporary pack; delete/repack traces replayed through the model '
-              'end in the real folder and pass the monitor at every boundary; p_delete generates exactly the intercepted trace. PARTIAL: repack is not '
-              'proved as a program (its byte-exact reclaim statement is decided by the raw comparison).'),
+              'end in the real folder and pass the monitor at every boundary; p_delete and p_repack_one generate exactly the intercepted traces. PARTIAL: the recompressed blobs are oracles '
+              '(zlib), and repack() over all packs is the iteration of the one-pack program in listdir order.'),
         design='4/C11'),
     'C12': dict(
         technique='Coq soundness+completeness of the validation model w.r.t. the read path + exhaustive single-damage sweep',
